@@ -589,13 +589,75 @@ func concurrentKeygen(c *mon.Case, r *mon.Run, seed uint64, calls int) {
 	}
 }
 
+// sharedDecode: decoding is a pure function of the representative and must
+// leave it alone, so one Representative value may be decoded by many
+// goroutines at once while others merely read it (obfs4 keeps the
+// representative of a session key around while handshakes run in parallel).
+// Decoders compare with the sequential result, readers with the original
+// bytes, and at the end the shared representatives must be unchanged.
+func sharedDecode(c *mon.Case, r *mon.Run, seed uint64, rounds int) {
+	rng := mon.NewRand(seed)
+	const nIn = 128
+	orig := make([][32]byte, nIn)
+	shared := make([]ntor.Representative, nIn)
+	want := make([][32]byte, nIn)
+	for i := range orig {
+		orig[i] = rand32(rng)
+		orig[i][31] = orig[i][31]&0x3f | byte(i%4)<<6 // all four settings of the top bits
+		own := ntor.Representative(orig[i])
+		want[i] = *own.ToPublic().Bytes()
+		shared[i] = ntor.Representative(orig[i])
+	}
+	workers := 16
+	var wg sync.WaitGroup
+	var badDecode, badRead atomic.Int64
+	var firstBad atomic.Int64
+	firstBad.Store(-1)
+	for w := 0; w < workers; w++ {
+		w := w
+		wg.Add(1)
+		go func() {
+			defer wg.Done()
+			for k := 0; k < rounds; k++ {
+				i := (k*5 + w*11) % nIn
+				if w%2 == 0 {
+					if *shared[i].ToPublic().Bytes() != want[i] {
+						badDecode.Add(1)
+						firstBad.CompareAndSwap(-1, int64(i))
+					}
+				} else if *shared[i].Bytes() != orig[i] {
+					badRead.Add(1)
+					firstBad.CompareAndSwap(-1, int64(i))
+				}
+			}
+		}()
+	}
+	wg.Wait()
+	changed := 0
+	for i := range shared {
+		if *shared[i].Bytes() != orig[i] {
+			changed++
+			firstBad.CompareAndSwap(-1, int64(i))
+		}
+	}
+	r.Count("evaluations", int64(workers*rounds))
+	r.Count("shared_representative_decodes", int64(workers/2*rounds))
+	r.Count("shared_representative_reads", int64(workers/2*rounds))
+	if bd, br := badDecode.Load(), badRead.Load(); bd > 0 || br > 0 || changed > 0 {
+		i := firstBad.Load()
+		c.Violation("decode/shared-representative-modified", fmt.Sprintf("%d representatives decoded concurrently by %d goroutines while %d others only read them: %d decodes differ from the sequential result, %d reads saw other bytes than the original, %d representatives are changed afterwards (first: %x, top bits %02b)", nIn, workers/2, workers/2, bd, br, changed, orig[i], orig[i][31]>>6), nil)
+	} else {
+		r.Count("control_shared_decode_equals_sequential", 1)
+	}
+}
+
 func TestCheck(t *testing.T) {
 	r := mon.Start(t, "C07")
 	defer r.Finish()
 	// math/big allocates for every field operation while the live heap stays
 	// small: collect less often (16 shard processes share the machine).
 	defer debug.SetGCPercent(debug.SetGCPercent(1000))
-	r.Note("rule", "generation: (a) grid batches: PRNG upper parts x all 8 values of priv[0]&7, each under 4 tweaks (one systematic so that all 256 occur, 3 PRNG) and the first 2 upper parts of every batch under all 256 tweaks; (b) batches of shaped PRNG private keys (uniform / small / sparse / dense / near 2^254, p, 2^255) under 2 PRNG tweaks; (c) ntor.NewKeypair(true) over a seeded crypto/rand.Reader; (d) structured private keys (0..8, all-ones, every single bit, every all-ones-minus-one-bit, byte patterns) x all 8 low-bit values x 8 chosen tweaks (thorough: all 256). decoding: shaped PRNG strings, named edge strings, every representative of low-order / small / PRNG u-coordinates built with the reference inverse map; every string under the four settings of its two top bits. A generation call is one (priv, tweak); non-trivial/distinct = distinct private keys (each under 2..256 tweaks) and distinct 254-bit decode inputs. Coset = index k of the torsion point with pub = u(clamp(priv)*B + k*T8), found by reference Edwards arithmetic.")
+	r.Note("rule", "generation: (a) grid batches: PRNG upper parts x all 8 values of priv[0]&7, each under 4 tweaks (one systematic so that all 256 occur, 3 PRNG) and the first 2 upper parts of every batch under all 256 tweaks; (b) batches of shaped PRNG private keys (uniform / small / sparse / dense / near 2^254, p, 2^255) under 2 PRNG tweaks; (c) ntor.NewKeypair(true) over a seeded crypto/rand.Reader; (d) structured private keys (0..8, all-ones, every single bit, every all-ones-minus-one-bit, byte patterns) x all 8 low-bit values x 8 chosen tweaks (thorough: all 256). decoding: shaped PRNG strings, named edge strings, every representative of low-order / small / PRNG u-coordinates built with the reference inverse map; every string under the four settings of its two top bits. concurrency: 16 goroutines generating keys at once against sequential results; 8 goroutines decoding 128 shared representatives (all four top-bit settings) while 8 others read them. A generation call is one (priv, tweak); non-trivial/distinct = distinct private keys (each under 2..256 tweaks) and distinct 254-bit decode inputs. Coset = index k of the torsion point with pub = u(clamp(priv)*B + k*T8), found by reference Edwards arithmetic.")
 	r.Note("exhaustive_part", "all 256 tweaks for 16 private keys per grid batch and (thorough) for every structured key; all 8 values of priv[0]&7 for every grid upper part and structured pattern; all 256 single-bit and 256 all-ones-minus-one-bit strings as decode inputs and as private keys; all four top-bit settings for every decode input; every representative (<= 4) of each targeted u-coordinate")
 	r.Note("not_demanded", "which of the (up to four) representatives is returned, that it lies in [0,(p-1)/2], what the output buffers hold after a failure, how NewKeypair derives key and tweak from the CSPRNG, any statistical uniformity: reported as obs_* counters only")
 
@@ -605,6 +667,15 @@ func TestCheck(t *testing.T) {
 		r.Case(fmt.Sprintf("gen/concurrent/%02d", ci), func(c *mon.Case) {
 			concurrentKeygen(c, r, r.Sub("conc", ci), r.Pick(40000, 200000))
 			r.Distinct("nontrivial", fmt.Sprintf("concurrent/%d", ci))
+		})
+	}
+
+	// (0b) concurrent decoding of shared representatives
+	for ci := 0; ci < r.Pick(4, 16); ci++ {
+		ci := ci
+		r.Case(fmt.Sprintf("decode/shared/%02d", ci), func(c *mon.Case) {
+			sharedDecode(c, r, r.Sub("shared", ci), r.Pick(20000, 100000))
+			r.Distinct("nontrivial", fmt.Sprintf("shared-decode/%d", ci))
 		})
 	}
 
